@@ -217,8 +217,10 @@ static int json_patch_apply_move_copy(struct json_object **res,
 	}
 
 	from_s_len = strlen(from_s);
-	if (strncmp(from_s, path, from_s_len) == 0) {
+	if (strncmp(from_s, path, from_s_len) == 0 &&
+	    (path[from_s_len] == '\0' || path[from_s_len] == '/')) {
 		/**
+		 * "from" is a prefix of "path", reference token by reference token.
 		 * If lengths match, it's a noop, if they don't,
 		 * then we're trying to move a parent under a child
 		 * which is not allowed as per RFC 6902 section 4.4
